@@ -95,7 +95,7 @@ CLAIMED = {
   "the serialization has exactly byte_size bytes; parse (encode v) = (v, byte_size v), also when followed by other data "
   "(non-tail positions) and behind a discriminant prefix. Tie: random values of 19 Rust shapes: byte_size, from_owned into "
   "exact / oversized / undersized buffers (count returned, remaining slice, nothing written outside), owned(bytes), and the "
-  "off-chain TestByteSet helper, compared with the extracted model and with an independent Python encoder. Every initializer of the family writes exactly INIT_BYTES, the encoding of the value it creates (C05_every_initializer_exact); the init probes ride in the same observation. Second stage `sized`: sized (bytemuck) values initialised through the blanket impls - DefaultInit writes the bytes of the type's OWN default (not a zero fill), an explicit value its own bytes, exactly size_of bytes, nothing behind them (C05_sized_init_exact, C05_sized_default_init_writes_the_default; 228 cases on five sized types, three with a hand-written non-zero default).",
+  "off-chain TestByteSet helper, compared with the extracted model and with an independent Python encoder. Every initializer of the family writes exactly INIT_BYTES, the encoding of the value it creates (C05_every_initializer_exact); the init probes ride in the same observation. Second stage `sized`: sized (bytemuck) values initialised through the blanket impls - DefaultInit writes the bytes of the type's OWN default (not a zero fill), an explicit value its own bytes, exactly size_of bytes, nothing behind them (C05_sized_init_exact, C05_sized_default_init_writes_the_default; 228 cases on five sized types, three with a hand-written non-zero default). Third stage `client`: the client-side account helpers serialize_account / deserialize_account on thirteen account types - round trip behind the discriminant, every other discriminant rejected (C05_client_roundtrip, C05_client_rejects_other_discriminant, C05_client_rejects_sibling_account; 1.7k cases).",
   "Initializer arguments are exercised through the operation histories of C01 (set_from_init, element initializers) where "
   "the model's init_size / init_bytes are compared with INIT_BYTES / init; the client (de)serialization helpers with "
   "discriminant are the leading-fixed-field instance (C05_discriminant_roundtrip) and the discriminant rejection is C08's "
